@@ -268,6 +268,34 @@ def verifyEth (cr : Crypto) (cfg : ChainCfg) (height : Nat) (tx : Tx) : Verdict 
 def verifyTx (cr : Crypto) (cfg : ChainCfg) (height : Nat) (tx : Tx) : Verdict :=
   if tx.type = typeETHTX then verifyEth cr cfg height tx else verifyNative cr cfg height tx
 
+/-! ### `eth_tx.Sender`: the per-object sender cache
+
+`Sender(signer, tx)` returns the cached address when the cached signer `Equal`s the current one
+(for EIP-155 signers: same chain id), otherwise derives it, and stores (signer, address) only on
+success. -/
+
+structure SigCache where
+  chainId : Nat
+  sender : Bytes
+deriving Repr, DecidableEq
+
+def senderCached (cr : Crypto) (cache : Option SigCache) (chainId : Nat) (e : EthTx) :
+    Option Bytes × Option SigCache :=
+  let derive : Option Bytes × Option SigCache :=
+    match ethSender cr chainId e with
+    | none => (none, cache)
+    | some a => (some a, some ⟨chainId, a⟩)
+  match cache with
+  | some sc => if sc.chainId = chainId then (some sc.sender, cache) else derive
+  | none => derive
+
+/-- a sequence of `Sender` calls on one transaction object with signers of the given chain ids -/
+def senderRun (cr : Crypto) (e : EthTx) : Option SigCache → List Nat → List (Option Bytes)
+  | _, [] => []
+  | cache, c :: cs =>
+    let r := senderCached cr cache c e
+    r.1 :: senderRun cr e r.2 cs
+
 /-! ### the signing path (what an honest client / the node's own `SignTx` produces)
 
 `crypto.Sign` / `secp256k1.Sign` are the curve operation (parameter: the 65 bytes r‖s‖recid the
